@@ -143,6 +143,40 @@ def run(ctx, model):
                 for op in ("|", "-"):
                     for order in orders:
                         jobs.append((alpha, neg, "".join(sorted(ma)), ta, "".join(sorted(mb)), tb, op, order))
+    # the hyphen neighbourhood: ranges that start / end at '-' and single characters next to them
+    hy = "+,-." if ctx.tier == "quick" else "+,-./"
+    for neg in (False, True):
+        lst = forms(hy, W, neg)
+        pairs = list(itertools.product(lst, lst))
+        if neg and ctx.tier == "quick":
+            pairs = pairs[::5]
+        for (ma, ta), (mb, tb) in pairs:
+            for op in ("|", "-"):
+                for order in orders[:2]:
+                    jobs.append((hy, neg, "".join(sorted(ma)), ta, "".join(sorted(mb)), tb, op, order))
+    # wide operands: one interval against two or three disjoint intervals over a nine-character alphabet, so that a
+    # single operation merges / splits several intervals at once; every worklist order matters here
+    wide = "abcdefghi"
+    n = len(wide)
+    ivs = [(a, b) for a in range(n) for b in range(a + 1, n)]
+    two = [(x, y) for x in ivs for y in ivs if x[1] + 1 < y[0]]
+    three = [(x, y, z) for x in ivs for y in ivs for z in ivs if x[1] + 1 < y[0] and y[1] + 1 < z[0]]
+    singles = [(a, b) for a, b in ivs if b - a >= 2]
+    import zlib
+    worders = (1, 11) if ctx.tier == "quick" else (0, 1, 2, 3, 10, 11, 12, 13)
+    mem = lambda parts: frozenset(wide[i] for a, b in parts for i in range(a, b + 1))
+    for A in singles:
+        for Bs in two + three:
+            if ctx.tier == "quick" and zlib.crc32(repr((A, Bs)).encode()) % 3:
+                continue
+            ma, mb = mem([A]), mem(Bs)
+            ta, tb = canonical_verbose(ma, False, W, True), canonical_verbose(mb, False, W, True)
+            for l_, lt, r_, rt in ((ma, ta, mb, tb), (mb, tb, ma, ta)):
+                for op in ("|", "-"):
+                    for order in (worders if op == "|" else worders[:1]):
+                        if op == "-" and l_ is mb and ctx.tier == "quick":
+                            continue
+                        jobs.append((wide, False, "".join(sorted(l_)), lt, "".join(sorted(r_)), rt, op, order))
     results = _parallel(ctx, model, sorted(W), jobs)
     for (alpha, neg, ma, ta, mb, tb, op, order), (kind, payload) in zip(jobs, results):
         ma, mb = frozenset(ma), frozenset(mb)
